@@ -714,8 +714,10 @@ int main(int argc, char** argv)
 
     std::vector<Plan> plans;
     if (!big) {
-        for (int n = 1; n <= 3; n++) plans.push_back({"ext", n, &ALPHA_EXT, {NATURAL, FLIPPED, HOLE}, true, true, 2, true, 2});
+        for (int n = 1; n <= 3; n++) plans.push_back({"ext", n, &ALPHA_EXT, {NATURAL, FLIPPED}, true, true, 2, true, 2});
+        for (int n = 2; n <= 3; n++) plans.push_back({"base", n, &ALPHA_BASE, {HOLE}, true, true, 2, true, 2});
         plans.push_back({"base", 4, &ALPHA_BASE, {NATURAL, FLIPPED}, true, false, 1, true, 2});
+        plans.push_back({"tiny", 4, &ALPHA_TINY, {HOLE}, true, false, 1, true, 1});
         plans.push_back({"q5", 5, &ALPHA_Q5, {NATURAL}, false, false, 1, true, 1});
     } else {
         for (int n = 1; n <= 3; n++) plans.push_back({"ext", n, &ALPHA_EXT, {NATURAL, FLIPPED, HOLE}, true, true, 2, true, 2});
